@@ -138,6 +138,19 @@ def fam_modes():
                     "let conv(x : %s 1) : %s 1 = wait x; close self\nlet g(x : %s 1) : %s 1 = x <- new conv(x); wait x; close self\n" % (q, r, q, p)))
         out.append(("decl:rebind-fresh:%s:%s:%s" % (p, q, r), "declshape:modes",
                     "let conv(x : %s 1) : %s 1 = wait x; close self\nlet g(x : %s 1) : %s 1 = y <- new conv(x); wait y; close self\n" % (q, r, q, p)))
+    # the annotation of a cut: written without a mode (= replicable unless a component fixes one) or with each mode, on a cut
+    # whose body is a call of a function of each mode / a direct term, under a provider of the function's mode
+    for fm in MODES:
+        for ann in [""] + MODES:
+            a1 = (ann + " 1").strip()
+            a2 = (ann + " (1 * 1)").strip() if ann else "1 * 1"
+            out.append(("decl:cutann:call:%s:%s" % (fm, ann or "none"), "declshape:modes",
+                        "let f() : %s 1 = close self\nprc[a] : %s 1 = x : %s <- new f(); wait x; close self\n" % (fm, fm, a1)))
+            out.append(("decl:cutann:direct:%s:%s" % (fm, ann or "none"), "declshape:modes",
+                        "prc[a] : %s 1 = x : %s <- new close self; wait x; close self\n" % (fm, a1)))
+            out.append(("decl:cutann:callpair:%s:%s" % (fm, ann or "none"), "declshape:modes",
+                        "let u() : %s 1 = close self\nlet f() : %s (1 * 1) = a <- new u(); b <- new u(); send self<a, b>\n"
+                        "prc[m] : %s 1 = x : %s <- new f(); <p, q> <- recv x; wait p; wait q; close self\n" % (fm, fm, fm, a2)))
     # shift types between every pair of modes at the root of a signature, used and compared
     for a, b in itertools.product(MODES, repeat=2):
         out.append(("decl:upshift:%s:%s" % (a, b), "declshape:modes", "let f(z : %s 1) : %s /\\ %s 1 = y <- shift self; wait z; close y\n" % (b, a, b)))
